@@ -352,8 +352,8 @@ def _field_writes(tree, fields):
         if isinstance(n, ast.Attribute) and isinstance(n.ctx, (ast.Store, ast.Del)) and n.attr in fields:
             out.append((n, norm(n.value), n.attr))
         elif isinstance(n, ast.Call) and dotted(n.func) in ("setattr", "delattr", "object.__setattr__") and len(n.args) >= 2 \
-                and (const(n.args[1]) in fields or const(n.args[1]) is None):
-            out.append((n, norm(n.args[0]), const(n.args[1]) or "<computed name>"))
+                and const(n.args[1]) in fields:          # a computed attribute name on an unknown object says nothing about Locations
+            out.append((n, norm(n.args[0]), const(n.args[1])))
         elif isinstance(n, ast.Call) and isinstance(n.func, ast.Attribute) and n.func.attr == "update" \
                 and isinstance(n.func.value, ast.Attribute) and n.func.value.attr == "__dict__":
             out.append((n, norm(n.func.value.value), "__dict__.update"))
@@ -428,5 +428,6 @@ CLAIM = {
     "technique": "static analysis: symbolic folding with event log; C02.1 by case evaluation per dimension (Data._get_common_indices folded with the "
                  "axis fixed to Time / Leadtime / Location and two generic inputs; each returned index array taken apart: entry i = "
                  "np.where(own values == common[i])[0][0], own attribute, own input, common = sorted NaN-free intersection over all inputs and "
-                 "the user's list); provenance of index stores; order preservation; reference substitution for refactored functions",
+                 "the user's list); provenance of index stores; order preservation; whole-program who-may-write rule on the fields Location.__hash__ reads "
+                 "(C02.5); reference substitution for refactored functions",
 }
